@@ -1894,7 +1894,7 @@ async function shallow_parse_input_query(query_text, input_iterator, join_tables
         query_context.join_map = new sql_join_type(query_context.join_map_impl);
     }
 
-    query_context.variables_init_code = combine_string_literals(generate_init_statements(format_expression, input_variables_map, join_variables_map, ' '.repeat(4)), string_literals);
+    query_context.variables_init_code = generate_init_statements(format_expression, input_variables_map, join_variables_map, ' '.repeat(4)); // Generated from the variable maps: contains no string literal placeholders to put back
 
     if (rb_actions.hasOwnProperty(WHERE)) {
         var where_expression = rb_actions[WHERE]['text'];
